@@ -227,7 +227,7 @@ def run(ctx):
     ctx.cov['impl_distinct'] = len(recs)
     ctx.cov['current_year_for_sliding_rule'] = now
     ctx.cov['aborted_cases'] = len(aborts)
-    for o in (recs[11], parses[3], parses[len(parses) // 2]):
+    for o in [l[min(k, len(l) - 1)] for l, k in ((recs, 11), (parses, 3), (parses, len(parses) // 2)) if l]:
         ctx.sample({k: (bytes(v).decode('latin-1') if isinstance(v, list) else v) for k, v in o.items()})
     ctx.cov['rule'] = ('fmt: %s, one random day of every month %s to 9999 plus 1 Jan / 28 Feb / 29 Feb / 1 Mar / 31 Dec, and the epoch, 2^31 s, 2^32 s and '
                        '9999-12-31 at 14 boundary seconds; each is formatted by FormatRfc1123 and parsed back. parse: random dates (years 1..9999, all two-digit '
